@@ -96,6 +96,15 @@ func c03Pattern(c *sim.Ctx, depth int) interface{} {
 			}
 		}
 		return a
+	case k == 9 && depth == 0 && c.Chance(1, 3, "wide"):
+		// a pattern that matches a wide message in very many ways (every one of them counts)
+		switch c.Intn(3, "widekind") {
+		case 0:
+			return map[string]interface{}{"a": []interface{}{"?x"}}
+		case 1:
+			return map[string]interface{}{"?k": "?v"}
+		}
+		return map[string]interface{}{"a": []interface{}{"?x"}, "b": []interface{}{"?y"}}
 	case k == 8 && c.Bool("choosethenindex"):
 		// a variable bound in several ways by an array, then used as the property variable of
 		// another part of the pattern: every alternative has to look up its own property
@@ -109,6 +118,22 @@ func c03Pattern(c *sim.Ctx, depth int) interface{} {
 		return c03Var(c)
 	}
 	return c03Sub(c)
+}
+
+// c03Wide recognises the "wide" pattern family.
+func c03Wide(p map[string]interface{}) bool {
+	if v, ok := p["?k"]; ok && len(p) == 1 {
+		return v == "?v"
+	}
+	a, ok := p["a"].([]interface{})
+	if !ok || len(a) != 1 || a[0] != "?x" {
+		return false
+	}
+	if len(p) == 1 {
+		return true
+	}
+	b, ok := p["b"].([]interface{})
+	return ok && len(p) == 2 && len(b) == 1 && b[0] == "?y"
 }
 
 // c03ChooseThenIndex recognises the pattern family above.
@@ -140,6 +165,29 @@ func c03PatVal(c *sim.Ctx, depth int) interface{} {
 func c03Message(c *sim.Ctx, pat interface{}, depth int) interface{} {
 	switch p := pat.(type) {
 	case map[string]interface{}:
+		if depth == 0 && c03Wide(p) {
+			n := 66 + c.Intn(6, "widen")
+			if _, two := p["b"]; two {
+				n = 9 + c.Intn(3, "widen2")
+			}
+			m := map[string]interface{}{}
+			if _, kv := p["?k"]; kv {
+				for i := 0; i < n; i++ {
+					m[fmt.Sprintf("k%02d", i)] = float64(i)
+				}
+				return m
+			}
+			var xs, ys []interface{}
+			for i := 0; i < n; i++ {
+				xs = append(xs, float64(i))
+				ys = append(ys, fmt.Sprintf("s%02d", i))
+			}
+			m["a"] = xs
+			if _, two := p["b"]; two {
+				m["b"] = ys
+			}
+			return m
+		}
 		if depth == 0 && c03ChooseThenIndex(p) {
 			keys := [][]interface{}{{"x", "y"}, {"x", "y", "z"}, {"y"}}[c.Intn(3, "ctikeys")]
 			b := map[string]interface{}{}
@@ -363,7 +411,11 @@ func runC03Order(c *sim.Ctx, t *testing.T) {
 		c.Count("triples_with_all_orders_enumerated")
 	} else {
 		// (2) beyond the cap: tape-sampled orders
-		for i := 0; i < 12; i++ {
+		nSamples := 12
+		if pm, ok := pat.(map[string]interface{}); ok && c03Wide(pm) {
+			nSamples = 3 // every evaluation of a wide match draws thousands of order choices
+		}
+		for i := 0; i < nSamples; i++ {
 			res, _, ok := eval()
 			if !ok {
 				return
@@ -437,7 +489,11 @@ func runC03Concurrent(c *sim.Ctx, t *testing.T) {
 	msg := c03Message(c, pat, 0)
 	bs := c03Bindings(c)
 	desc := fmt.Sprintf("pattern %s message %s bindings %s", ref.Canon(pat), ref.Canon(msg), ref.Canon(map[string]interface{}(bs)))
-	// (map iteration inside the matcher is permuted here, too: the outcome may not depend on it)
+	// (map iteration inside the matcher is permuted here, too: the outcome may not depend on it;
+	// except for the wide family, whose matches would use up the tape)
+	if pm, ok := pat.(map[string]interface{}); ok && c03Wide(pm) {
+		c.PermuteOff = true
+	}
 	// The reference call is made afterwards, on copies taken now: the concurrent calls are
 	// the first ever to see these pattern, message and bindings objects (anything the
 	// matcher might remember per object is cold when they start).
